@@ -31,13 +31,24 @@
      them);
    * error values are opaque: fmt.Errorf(format, args...) is [ErrFmt format]
      (the arguments only shape the message text, which nothing compares). *)
-From Verif Require Import Base.Prelude Base.GoSem.
+From Verif Require Import Base.Prelude Base.Decimal Base.GoSem.
 Open Scope Z_scope.
 
 (* ErrNamed: a package-level sentinel error of the standard library (io.ErrShortWrite ...), compared by name *)
 Inductive errv := ErrFmt (fmt : list N) | ErrEOF | ErrNamed (name : list N).
 Definition goerr := option errv.          (* Go's `error`; nil = None *)
 Definition err_isnil (e : goerr) : bool := match e with None => true | Some _ => false end.
+
+(* strconv.Atoi: the decimal reading of Base/Decimal.v (optional sign, digits); ErrSyntax for anything else, ErrRange
+   (with the nearest int) outside int64 *)
+Definition strconv_Atoi (s : list N) : Z * goerr :=
+  match Decimal.parse_Z s with
+  | None => (0, Some (ErrNamed [115;116;114;99;111;110;118;46;69;114;114;83;121;110;116;97;120]%N))
+  | Some i =>
+      if (9223372036854775807 <? i) then (9223372036854775807, Some (ErrNamed [115;116;114;99;111;110;118;46;69;114;114;82;97;110;103;101]%N))
+      else if (i <? -9223372036854775808) then (-9223372036854775808, Some (ErrNamed [115;116;114;99;111;110;118;46;69;114;114;82;97;110;103;101]%N))
+      else (i, None)
+  end.
 
 Record stream := mkstream { s_rest : list N; s_last : option N }.
 Record world := mkworld { w_in : stream; w_out : list N (* reversed *) }.
